@@ -76,6 +76,9 @@ pub struct Config {
     spurious: u32,
     w_adv: u32,
     w_poll: u32,
+    /// the service may be dropped while calls are in flight
+    #[serde(default)]
+    drop_service: bool,
 }
 
 #[derive(Serialize, Deserialize, Clone, Debug, PartialEq)]
@@ -92,6 +95,8 @@ pub enum Action {
     PollFactFut,
     SpuriousPollFactFut,
     AdvanceFact(usize),
+    /// drop the (last handle of the) service; calls in flight go on
+    DropService,
 }
 
 // ------------------------------------------------------------------------------------------------
@@ -1087,7 +1092,7 @@ fn run_sim(prop: &str, cfg: &Config, ch: &mut Chooser<Action>, ctx: &mut RunCtx)
     } else {
         svc = Some(build(&cfg.tree));
     }
-    let svc = svc.unwrap();
+    let mut svc = svc;
     let mut lv = Vec::new();
     leaves_of(&shape, &mut lv);
     lv.sort();
@@ -1104,13 +1109,18 @@ fn run_sim(prop: &str, cfg: &Config, ch: &mut Chooser<Action>, ctx: &mut RunCtx)
 
     loop {
         let mut en: Vec<(Action, u32)> = Vec::new();
-        if !ready_parked || ready_task.woken() {
-            en.push((Action::PollReady, cfg.w_poll));
-        } else if cfg.spurious > 0 {
-            en.push((Action::SpuriousPollReady, cfg.spurious));
-        }
-        if futs.len() < 4 {
-            en.push((Action::Call, cfg.w_poll));
+        if svc.is_some() {
+            if !ready_parked || ready_task.woken() {
+                en.push((Action::PollReady, cfg.w_poll));
+            } else if cfg.spurious > 0 {
+                en.push((Action::SpuriousPollReady, cfg.spurious));
+            }
+            if futs.len() < 4 {
+                en.push((Action::Call, cfg.w_poll));
+            }
+            if cfg.drop_service && futs.iter().any(|f| f.fut.is_some()) {
+                en.push((Action::DropService, 1));
+            }
         }
         for (i, f) in futs.iter().enumerate() {
             if f.fut.is_some() {
@@ -1192,7 +1202,7 @@ fn run_sim(prop: &str, cfg: &Config, ch: &mut Chooser<Action>, ctx: &mut RunCtx)
                 let expect = eval_ready(&shape, &st);
                 let (_f, wk) = ready_task.fresh();
                 let mut cx = Context::from_waker(&wk);
-                let got = svc.poll_ready(&mut cx);
+                let got = svc.as_ref().unwrap().poll_ready(&mut cx);
                 let gotr = match &got {
                     Poll::Pending => Rd::Pending,
                     Poll::Ready(Ok(())) => Rd::Ready,
@@ -1248,7 +1258,7 @@ fn run_sim(prop: &str, cfg: &Config, ch: &mut Chooser<Action>, ctx: &mut RunCtx)
                 next_req += 1;
                 let mut calls = Vec::new();
                 let expect = eval_call(&shape, req.clone(), &cfg.call_ok, &mut calls);
-                let fut = svc.call(req.clone());
+                let fut = svc.as_ref().unwrap().call(req.clone());
                 flush_log(ctx);
                 ev!(ctx, "call {req:?}");
                 futs.push(RootFut { fut: Some(fut), task: TaskWake::new(), parked: false, req, expect, expect_calls: calls, done: false });
@@ -1306,6 +1316,11 @@ fn run_sim(prop: &str, cfg: &Config, ch: &mut Chooser<Action>, ctx: &mut RunCtx)
                         ctx.bump(if r.is_ok() { "probe.call_ok" } else { "probe.call_err" });
                     }
                 }
+            }
+            Action::DropService => {
+                svc = None;
+                ctx.bump("probe.service_dropped_with_calls_in_flight");
+                ev!(ctx, "drop the service");
             }
             Action::DropFut(i) => {
                 futs[i].fut = None;
@@ -1385,6 +1400,7 @@ impl Engine for SvcSim {
             spurious: *rng.pick(&[0, 0, 1, 2]),
             w_adv: *rng.pick(&[1, 2, 4]),
             w_poll: *rng.pick(&[2, 4, 6]),
+            drop_service: rng.chance(1, 3),
         }
     }
     fn max_actions(_: &str, cfg: &Config) -> usize {
@@ -1401,7 +1417,7 @@ impl Engine for SvcSim {
             rule: format!(
                 "random combinator trees up to depth 3 over and_then / map / map_err / apply_fn / Transform-wrapped / boxed::service / boxed::rc_service / Rc / RefCell / Box (type-erased between nodes with the crate's own boxed wrappers) plus 5 fully static nestings, and factory trees over and_then / map / map_err / map_init_err / map_config / apply_fn_factory / apply(Transform) / boxed::factory / Rc / fn_factory_with_config plus 6 static ones (unit_config, apply_cfg, apply_cfg_factory, fn_factory, Arc); scripted leaves whose readiness, call and construction futures advance only by simulator actions (with a wake); strict-wake executor with a fresh waker per poll; {}; non-trivial = >=1 call completed and >=1 Pending poll (or a factory run); distinct = distinct event-trace hash",
                 if prop == "C11" {
-                    "oracle = tree interpreter: result value with trace, exact sequence of inner calls, one build per inner factory with the supplied config, first init error"
+                    "oracle = tree interpreter: result value with trace, exact sequence of inner calls (also for calls that outlive the service: in a third of the runs the service may be dropped while calls are in flight), one build per inner factory with the supplied config, first init error"
                 } else {
                     "oracle = readiness conjunction / error propagation from the interpreter, waker-coverage rule for every pending leaf, no poll after completion, no stage twice, Pending only with a cause"
                 }
@@ -1413,7 +1429,7 @@ impl Engine for SvcSim {
     }
     fn required_probes(prop: &str, _tier: Tier) -> Vec<&'static str> {
         if prop == "C11" {
-            vec!["probe.call_ok", "probe.call_err", "probe.init_error", "probe.factory_pending"]
+            vec!["probe.call_ok", "probe.call_err", "probe.init_error", "probe.factory_pending", "probe.service_dropped_with_calls_in_flight"]
         } else {
             vec!["probe.ready_pending", "probe.ready_ok", "probe.ready_err", "probe.factory_pending", "probe.future_cancelled"]
         }
